@@ -497,3 +497,45 @@ def vg5(P, C):
              "declared dimension beyond the table's, writes outside the vector" % pname)
     if n == 0:
         raise core.AnalysisBroken("VG-5: estimateMemory subscripts nothing by an argument")
+
+
+# --------------------------------------------------------------------------
+# SM-8: the size model finds each extension the way the reader finds it
+# --------------------------------------------------------------------------
+def sm8(P, C):
+    from . import fs as _fs
+    C.rule("SM-8", "estimateMemory locates every extension whose size it counts exactly as read_fits_core locates it — fits_movnam_hdu with the "
+           "same HDU type and the same name pattern (KNOTS<i> with the loop variable) — and moves by position only to the primary HDU. The "
+           "reader accepts the extensions in any sequence (foreign or re-packed files); a model that goes by position counts another "
+           "extension's knots and the estimate falls short by whole hyperslices", floor=3)
+    ef = P.one("estimateMemory", unit="driver")
+    rf, R = _fs.reader_schema(P)
+    rmoves = {(str(x["name"]), x["hdutype"]) for x in R if x["kind"] == "move"}
+    calls, fmts = _fs.cfits_calls(ef)
+    emoves = []
+    bypos = []
+    for (i, nm, macro) in calls:
+        a = ef.args(i)
+        if nm == "ffmnhd":
+            emoves.append((i, str(_fs.name_of(ef, a[2], fmts)), ef.nodes[ef.strip(a[1])].get("cv")))
+        elif nm == "ffmahd":
+            k = ef.nodes[ef.strip(a[1])].get("cv")
+            if k != 1:
+                bypos.append((i, ef.render(a[1])))
+        elif nm == "ffmrhd":
+            bypos.append((i, "relative " + ef.render(a[1])))
+    C.ob("SM-8", "estimateMemory", "no-move-by-position", not bypos, ef.loc(bypos[0][0]) if bypos else ef.where(),
+         "the only move by position is to the primary HDU" if not bypos else
+         "fits_mov(abs|rel)_hdu to HDU %s: the reader finds its extensions by name, wherever they are in the file" % bypos[0][1])
+    kn = [m for m in emoves if "KNOTS" in m[1]]
+    ok = bool(kn) and all((m[1], m[2]) in rmoves for m in emoves)
+    C.ob("SM-8", "estimateMemory", "same-name-and-type-as-the-reader", ok, ef.loc(emoves[0][0]) if emoves else ef.where(),
+         "moves by name: %s; the reader's: %s" % (sorted((m[1], m[2]) for m in emoves), sorted(rmoves)))
+    # the index formatted into the name is the loop variable that also indexes the per-dimension count
+    okv = False
+    for (i, name, _t) in kn:
+        L = next((x for x in ef.ancestors(i) if ef.k(x) == "ForStmt"), None)
+        sizes = [j for (j, nm, _m) in calls if nm == "ffgisz" and L is not None and L in set(ef.ancestors(j))]
+        okv = L is not None and bool(sizes)
+    C.ob("SM-8", "estimateMemory", "knot-count-read-in-the-same-iteration", okv, ef.loc(kn[0][0]) if kn else ef.where(),
+         "each KNOTS<i> move is followed in the same loop iteration by the fits_get_img_size that counts its knots")
